@@ -26,7 +26,7 @@ RULE = ('cases = (curve, simplifier, detector, corner threshold, linkage, cluste
         'non-trivial = the final knee list is non-empty (something flowed through every stage)')
 ASSUMPTIONS = ['stages are composed as in demos/*.py; intermediate results of earlier stages are reused across later configurations (purity is C20)',
                'coordinates compared exactly (indexing, no arithmetic)']
-BOUNDS = {'quick': {'curves': 'A n=4 complete, A1 n=5,6, Y013 n=7, trace web0_reduced.csv (62 points)', 'configs': '5 simplifiers x 5 detectors x 2 (corner t, cluster t) x 4 linkages x 4 rankings = 800'},
+BOUNDS = {'quick': {'curves': 'A n=4 complete, A1 n=5,6, Y013 n=7, trace web0_reduced.csv (62 points)', 'configs': '5 simplifiers x 5 detectors x 3 (corner t, cluster t) x 4 linkages x 4 rankings = 1200', 'trace windows': 'every window of 16 points of web0_reduced.csv and of usr0.csv[::128]'},
           'thorough': {'curves': 'A n<=5 complete, A1 n=6,7, Y013 n=8, every window of length 12 and 20 of web0_reduced.csv and of usr0.csv[::64]', 'configs': 800}}
 TECHNIQUE = 'bounded-exhaustive exploration of the composed pipeline (all stage configurations) on the real code under the loop monitor; stage-wise subsequence / mapping invariants'
 LEVEL_TEXT = ('Model checking of the composition: every small curve and the bundled trace through all 800 simplifier x detector x filter configurations; completion, '
@@ -36,7 +36,7 @@ LEVEL_NOTE = 'Bounded by n, alphabet and the listed thresholds.'
 DET = {'curvature': curvature.multi_knee, 'dfdt': dfdt.multi_knee, 'menger': menger.multi_knee, 'lmethod': lmethod.multi_knee, 'kneedle': kneedle.multi_knee}
 LINK = {'single': clustering.single_linkage, 'complete': clustering.complete_linkage, 'centroid': clustering.centroid_linkage, 'average': clustering.average_linkage}
 RANK = {m.value: m for m in kr.ClusterRanking}
-THR = [(0.33, 0.05), (0.5, 0.3)]
+THR = [(0.33, 0.05), (0.5, 0.3), (0.33, 0.15)]
 TRACES = os.path.join(core.REPO, 'traces')
 
 
@@ -62,6 +62,10 @@ def units(tier, seed):
             for w in (12, 20):
                 for k in range(16):
                     u.append(('windows', fname, stride, w, k, 16))
+    else:
+        for k in range(16):
+            u.append(('windows', 'web0_reduced.csv', 1, 16, k, 16))
+            u.append(('windows', 'usr0.csv', 128, 16, k, 16))
     return u
 
 
